@@ -406,6 +406,17 @@ def fam_perm(case):
         for ek in ('const', 'distinct'):
             flux_call(r, fb, tc, tw, c[p], w_eff[p], gp, S[ig][p], E[ek][p], tag, 'perm', '', observe=False)
         flux_call(r, fb, tc, tw, c[p], w_eff[p], gp, S[:, p], E['2d'][:, p], tag, 'perm', '', names, observe=False)
+        if gp is not None:
+            # the native widths handed over as a plain list / tuple instead of an array: the same bins
+            base_ = np.asarray(fb.bindown(c[p].copy(), S[ig][p].copy(), np.array(gp, float), E['distinct'][p].copy())[1:3], float)
+            for conv, cname in ((list, 'list'), (tuple, 'tuple')):
+                try:
+                    alt = np.asarray(fb.bindown(c[p].copy(), S[ig][p].copy(), conv(float(v) for v in gp),
+                                                E['distinct'][p].copy())[1:3], float)
+                    r.check(bool(np.array_equal(alt, base_, equal_nan=True)), 'width-container',
+                            'flux/width-container/%s/%s' % (cname, tag), got=alt, want=base_)
+                except Exception as ex:
+                    r.check(False, 'no-exception', 'flux/raised/%s/width-%s' % (type(ex).__name__, cname), exc=repr(ex))
         if p != sorted(p):
             r.nontrivial = True
     return r
